@@ -18,6 +18,7 @@ import (
 	"regexp"
 	"strings"
 	"sync"
+	"sync/atomic"
 	"time"
 
 	frugal "github.com/Workiva/frugal/lib/go"
@@ -99,6 +100,46 @@ func allMethods(prog *idl.Program, f *idl.File, s *idl.Service) []methodInfo {
 		s, f = parent, nf
 	}
 	return out
+}
+
+// findEmitted finds the emitted service for svc: F<Name> modulo case and
+// underscores, in the package that also holds the file's struct-likes.
+func findEmitted(pkgs []*genreg.Package, f *idl.File, svc *idl.Service) (*genreg.Service, int) {
+	var gs *genreg.Service
+	n := 0
+	for _, p := range pkgs {
+		if fp := filePkg[f]; fp != nil && fp != p {
+			continue
+		}
+		for goName, s := range p.Services {
+			if norm(strings.TrimPrefix(goName, "F")) == norm(svc.Name) {
+				gs = s
+				n++
+			}
+		}
+	}
+	return gs, n
+}
+
+// parentOf resolves the service svc extends.
+func parentOf(prog *idl.Program, f *idl.File, svc *idl.Service) (*idl.File, *idl.Service) {
+	if svc.Extends == "" {
+		return nil, nil
+	}
+	name, nf := svc.Extends, f
+	if i := strings.IndexByte(name, '.'); i >= 0 {
+		nf = prog.File(name[:i])
+		name = name[i+1:]
+	}
+	if nf == nil {
+		return nil, nil
+	}
+	for _, c := range nf.Services() {
+		if c.Name == name {
+			return nf, c
+		}
+	}
+	return nil, nil
 }
 
 type expectation struct {
@@ -284,19 +325,7 @@ func checkProgram(ps emitbatch.ProgSpec, bt batch, ns *rig.NatsServer) *progResu
 		for _, svc := range f.Services() {
 			// find the emitted service: F<Name> modulo case and underscores,
 			// in the package that also holds the service's first own struct
-			var gs *genreg.Service
-			n := 0
-			for _, p := range pkgs {
-				if fp := filePkg[f]; fp != nil && fp != p {
-					continue
-				}
-				for goName, s := range p.Services {
-					if norm(strings.TrimPrefix(goName, "F")) == norm(svc.Name) {
-						gs = s
-						n++
-					}
-				}
-			}
+			gs, n := findEmitted(pkgs, f, svc)
 			if gs == nil || n != 1 {
 				res.Skipped = append(res.Skipped, fmt.Sprintf("service %s: %d emitted candidates", svc.Name, n))
 				continue
@@ -305,6 +334,13 @@ func checkProgram(ps emitbatch.ProgSpec, bt batch, ns *rig.NatsServer) *progResu
 			methods := allMethods(prog, f, svc)
 			for li, lp := range bt.Legs {
 				checkService(prog, f, svc, gs, methods, lp[0], lp[1], bt.Calls, rng, ns, res, addV, li == 0)
+			}
+			if pf, parent := parentOf(prog, f, svc); parent != nil {
+				if pgs, pn := findEmitted(pkgs, pf, parent); pgs != nil && pn == 1 {
+					for _, lp := range bt.Legs {
+						olderServer(prog, svc, gs, pgs, methods, lp[0], lp[1], rng, ns, res, addV)
+					}
+				}
 			}
 		}
 	}
@@ -452,6 +488,245 @@ func checkService(prog *idl.Program, f *idl.File, svc *idl.Service, gs *genreg.S
 				resMu.Unlock()
 			}
 		}(g, grng)
+	}
+	wg.Wait()
+	manyConnections(prog, svc, gs, two, kind, proto, rng, ns, res, addV)
+}
+
+var manyConnFailed int32
+var olderServerFailed int32
+
+// olderServer: a client generated for a service talks to a server that only
+// implements the service it extends (a server one release behind).  Inherited
+// methods must behave identically; the client's own methods are answered with
+// an UNKNOWN_METHOD application error without the handler of any method
+// running; and the inherited methods keep working on the same connection
+// afterwards.
+func olderServer(prog *idl.Program, svc *idl.Service, gs, pgs *genreg.Service, methods []methodInfo, kind, proto string, rng *rand.Rand, ns *rig.NatsServer, res *progResult, addV func(string, string, interface{})) {
+	if atomic.LoadInt32(&olderServerFailed) >= 2 {
+		return
+	}
+	inner := addV
+	addV = func(sig, what string, w interface{}) {
+		atomic.AddInt32(&olderServerFailed, 1)
+		inner(sig, what, w)
+	}
+	var inherited, own []methodInfo
+	for _, mi := range methods {
+		switch {
+		case mi.m.Oneway:
+		case mi.own:
+			own = append(own, mi)
+		default:
+			inherited = append(inherited, mi)
+		}
+	}
+	if len(inherited) == 0 || len(own) == 0 {
+		return
+	}
+	exp := &expectation{calls: map[string]int{}, args: map[string][]interface{}{}, outcome: map[string][]interface{}{}, observed: make(chan string, 1024)}
+	var handlerRuns int32
+	recorder := func(iface, method string, args []interface{}) []interface{} {
+		atomic.AddInt32(&handlerRuns, 1)
+		fctx, _ := args[0].(frugal.FContext)
+		token := ""
+		if fctx != nil {
+			token = fctx.CorrelationID()
+		}
+		exp.mu.Lock()
+		exp.calls[token]++
+		exp.args[token] = append([]interface{}{method}, args[1:]...)
+		out := exp.outcome[token]
+		exp.mu.Unlock()
+		select {
+		case exp.observed <- token:
+		default:
+		}
+		return out
+	}
+	var proc frugal.FProcessor
+	func() {
+		defer func() { recover() }()
+		proc = pgs.NewProcessor(pgs.NewStub(recorder))
+	}()
+	if proc == nil {
+		return
+	}
+	leg, err := rig.StartRPCLeg(kind, proto, proc, ns, rig.LegOptions{})
+	if err != nil {
+		res.Inconclusive = append(res.Inconclusive, fmt.Sprintf("leg %s/%s (older server): %v", kind, proto, err))
+		return
+	}
+	defer leg.Stop()
+	tr, err := leg.NewClient()
+	if err != nil {
+		res.Inconclusive = append(res.Inconclusive, fmt.Sprintf("client %s/%s (older server): %v", kind, proto, err))
+		return
+	}
+	client := reflect.ValueOf(gs.NewClient(frugal.NewFServiceProvider(tr, leg.PF)))
+	method := func(mi methodInfo) reflect.Value {
+		ct := client.Type()
+		var gm reflect.Value
+		for i := 0; i < ct.NumMethod(); i++ {
+			if norm(ct.Method(i).Name) == norm(mi.m.Name) {
+				gm = client.Method(i)
+			}
+		}
+		return gm
+	}
+	legName := kind + "/" + proto + "(older server)"
+	seq := 0
+	callInherited := func() {
+		mi := inherited[rng.Intn(len(inherited))]
+		if gm := method(mi); gm.IsValid() {
+			seq++
+			one := runCall(prog, svc, mi, gm, fmt.Sprintf("%s-%s-older-%s-%s-%d", svc.Name, mi.m.Name, kind, proto, seq), legName, rng, exp, leg, res, addV)
+			resMu.Lock()
+			res.Calls++
+			if one != "" {
+				res.Outcomes[one+"(inherited, server knows the parent only)"]++
+			}
+			resMu.Unlock()
+		}
+	}
+	callInherited()
+	for round := 0; round < 2; round++ {
+		mi := own[rng.Intn(len(own))]
+		gm := method(mi)
+		if !gm.IsValid() {
+			return
+		}
+		mt := gm.Type()
+		if mt.NumIn() != 1+len(mi.m.Args) {
+			return
+		}
+		seq++
+		fctx := frugal.NewFContext(fmt.Sprintf("%s-%s-older-unknown-%d", svc.Name, mi.m.Name, seq))
+		fctx.SetTimeout(30 * time.Second)
+		in := []reflect.Value{reflect.ValueOf(fctx)}
+		for i, a := range mi.m.Args {
+			pv := reflect.New(mt.In(i + 1)).Elem()
+			if err := gocodec.FillGo(pv, prog.GenValue(rng, mi.file, a.Type, 1)); err != nil {
+				return
+			}
+			in = append(in, pv)
+		}
+		before := atomic.LoadInt32(&handlerRuns)
+		wit := map[string]interface{}{"service": svc.Name, "extends": svc.Extends, "method": mi.m.Name, "leg": legName}
+		var out []reflect.Value
+		func() {
+			defer func() {
+				if r := recover(); r != nil {
+					addV("C03:client-panic:unknown-method", fmt.Sprintf("%s.%s on %s: the emitted client panicked: %v", svc.Name, mi.m.Name, legName, r), wit)
+				}
+			}()
+			out = gm.Call(in)
+		}()
+		if out == nil {
+			return
+		}
+		resMu.Lock()
+		res.Calls++
+		res.Outcomes["unknown-method(server knows the parent only)"]++
+		resMu.Unlock()
+		var callErr error
+		if e := out[len(out)-1]; !e.IsNil() {
+			callErr, _ = e.Interface().(error)
+		}
+		ae, ok := callErr.(thrift.TApplicationException)
+		if !ok || ae.TypeId() != frugal.APPLICATION_EXCEPTION_UNKNOWN_METHOD {
+			addV("C03:unknown-method-outcome", fmt.Sprintf("%s.%s on %s: the server does not implement the method; the caller got %T %v instead of an UNKNOWN_METHOD application error", svc.Name, mi.m.Name, legName, callErr, callErr), wit)
+			return
+		}
+		if n := atomic.LoadInt32(&handlerRuns) - before; n != 0 {
+			addV("C03:unknown-method-ran-a-handler", fmt.Sprintf("%s.%s on %s: %d handler invocations for a method the server does not implement", svc.Name, mi.m.Name, legName, n), wit)
+			return
+		}
+		callInherited()
+		callInherited()
+	}
+}
+
+// manyConnections: a server that several clients have connected to before it
+// starts serving accepts them back to back; every connection must be served by
+// its own handler invocation all the same.  One two-way call per connection,
+// issued concurrently, each judged on its own by its correlation id.
+func manyConnections(prog *idl.Program, svc *idl.Service, gs *genreg.Service, two []methodInfo, kind, proto string, rng *rand.Rand, ns *rig.NatsServer, res *progResult, addV func(string, string, interface{})) {
+	if kind != "tcp" || atomic.LoadInt32(&manyConnFailed) >= 2 {
+		return // a lost call costs its whole timeout: two witnesses per process are enough
+	}
+	const conns = 6
+	inner := addV
+	addV = func(sig, what string, w interface{}) {
+		atomic.AddInt32(&manyConnFailed, 1)
+		inner(sig, what, w)
+	}
+	exp := &expectation{calls: map[string]int{}, args: map[string][]interface{}{}, outcome: map[string][]interface{}{}, observed: make(chan string, 1024)}
+	recorder := func(iface, method string, args []interface{}) []interface{} {
+		fctx, _ := args[0].(frugal.FContext)
+		token := ""
+		if fctx != nil {
+			token = fctx.CorrelationID()
+		}
+		exp.mu.Lock()
+		exp.calls[token]++
+		exp.args[token] = append([]interface{}{method}, args[1:]...)
+		out := exp.outcome[token]
+		exp.mu.Unlock()
+		select {
+		case exp.observed <- token:
+		default:
+		}
+		return out
+	}
+	var proc frugal.FProcessor
+	func() {
+		defer func() { recover() }()
+		proc = gs.NewProcessor(gs.NewStub(recorder))
+	}()
+	if proc == nil {
+		return
+	}
+	leg, err := rig.StartRPCLeg(kind, proto, proc, ns, rig.LegOptions{PreConnect: conns})
+	if err != nil {
+		res.Inconclusive = append(res.Inconclusive, fmt.Sprintf("leg %s/%s (pre-connected): %v", kind, proto, err))
+		return
+	}
+	defer leg.Stop()
+	legName := kind + "/" + proto
+	var wg sync.WaitGroup
+	for g := 0; g < conns; g++ {
+		tr, err := leg.NewClient()
+		if err != nil {
+			res.Inconclusive = append(res.Inconclusive, fmt.Sprintf("client %s/%s (pre-connected): %v", kind, proto, err))
+			break
+		}
+		client := reflect.ValueOf(gs.NewClient(frugal.NewFServiceProvider(tr, leg.PF)))
+		mi := two[rng.Intn(len(two))]
+		var gm reflect.Value
+		ct := client.Type()
+		for i := 0; i < ct.NumMethod(); i++ {
+			if norm(ct.Method(i).Name) == norm(mi.m.Name) {
+				gm = client.Method(i)
+			}
+		}
+		if !gm.IsValid() {
+			continue
+		}
+		wg.Add(1)
+		grng := rand.New(rand.NewSource(rng.Int63()))
+		go func(g int, mi methodInfo, gm reflect.Value, grng *rand.Rand) {
+			defer wg.Done()
+			token := fmt.Sprintf("%s-%s-%s-conn%d", svc.Name, mi.m.Name, strings.ReplaceAll(legName, "/", "-"), g)
+			one := runCall(prog, svc, mi, gm, token, legName+"(pre-connected)", grng, exp, leg, res, addV)
+			resMu.Lock()
+			res.Calls++
+			res.Legs[legName]++
+			if one != "" {
+				res.Outcomes[one+"(own connection, accepted back to back)"]++
+			}
+			resMu.Unlock()
+		}(g, mi, gm, grng)
 	}
 	wg.Wait()
 }
